@@ -321,6 +321,17 @@ class BytesMixin(object):
   def struct_unpack(self, st, cx, fmt, data, node):
     fields = fmt.fields()
     atoms = normalise(data.py)
+    if (len(atoms) == 1 and atoms[0][0] == 'raw' and not z3.is_int_value(z3.simplify(atoms[0][2]))
+        and all(code in CODES and isinstance(count, int) for code, count in fields)):
+      # one opaque chunk of unknown length (e.g. a short read): struct.error unless it has exactly the format's size
+      total = sum(CODES[code][0] * count for code, count in fields)
+      for s2, e in self.oblige_or_raise(st, cx, atoms[0][2] == total, 'struct.error', node, 'unpack requires a buffer of %d bytes' % total):
+        if isinstance(e, Exc):
+          yield s2, e
+        else:
+          for o in self.struct_unpack(s2, cx, fmt, mk_bytes([('raw', atoms[0][1], z3.IntVal(total))]), node):
+            yield o
+      return
     vals = []
     for code, count in fields:
       if code not in CODES or not isinstance(count, int):
